@@ -118,6 +118,56 @@ def detect_scratch(wt, n, props):
     return res
 
 
+def corpus(only=None):
+    """For every stored seeded change: apply it to a scratch worktree, run its property's quick
+    check there and keep the minimised replay that exposes it as /verif/corpus/<id>.replay.json.
+    On the unchanged tree these traces must show no violation; they are replayed at the start of
+    every check as regression inputs."""
+    import glob
+    os.makedirs(os.path.join(VERIF, "corpus"), exist_ok=True)
+    for d in sorted(glob.glob(os.path.join(VERIF, "seeded", "*"))):
+        sid = os.path.basename(d)
+        if only and sid not in only:
+            continue
+        meta = json.load(open(os.path.join(d, "meta.json")))
+        prop = meta["property"]
+        scratch = "/tmp/mhscratch-" + sid
+        simcopy = "/tmp/mhsimcopy-" + sid
+        tdir = "/tmp/mhsim-target-corpus"
+        tmp = tempfile.mkdtemp(prefix="mhcorp")
+        shutil.copy(os.path.join(VERIF, "known_findings.json"), tmp)
+        try:
+            sh("git -C /repo worktree add --detach %s HEAD -q" % scratch)
+            rc, o = sh("git apply %s" % os.path.join(d, "patch.diff"), cwd=scratch)
+            if rc != 0:
+                print(sid, "apply failed")
+                continue
+            sh("rm -rf %s; mkdir -p %s; cd %s && tar cf - --exclude=target --exclude=target-small . | (cd %s && tar xf -)" % (simcopy, simcopy, SIM, simcopy))
+            mf = os.path.join(simcopy, "mh", "Cargo.toml")
+            text = open(mf).read().replace("/repo/src/lib.rs", scratch + "/src/lib.rs")
+            open(mf, "w").write(text)
+            rc, o = sh("CARGO_TARGET_DIR=%s cargo build --release --offline --quiet" % tdir, cwd=simcopy)
+            if rc != 0:
+                print(sid, "build failed")
+                continue
+            rc, o = sh("%s/release/mhsim run --prop %s --tier quick --no-evidence --verif-dir %s" % (tdir, prop, tmp))
+            reps = glob.glob(os.path.join(tmp, "replays", "*.json"))
+            if rc == 1 and reps:
+                dst = os.path.join(VERIF, "corpus", sid + ".replay.json")
+                j = json.load(open(reps[0]))
+                j.pop("unminimised_case", None)
+                j["origin"] = "minimised trace that exposes seeded change %s (%s)" % (sid, meta["change"])
+                json.dump(j, open(dst, "w"))
+                print(sid, "kept", j["violation"]["class"])
+            else:
+                print(sid, "NOT DETECTED rc=%d" % rc)
+        finally:
+            sh("git -C /repo worktree remove --force %s" % scratch)
+            shutil.rmtree(simcopy, ignore_errors=True)
+            shutil.rmtree(tmp, ignore_errors=True)
+    shutil.rmtree("/tmp/mhsim-target-corpus", ignore_errors=True)
+
+
 def keep(wt, n, sid, prop, meta):
     d = os.path.join(VERIF, "seeded", sid)
     os.makedirs(d, exist_ok=True)
@@ -136,5 +186,7 @@ if __name__ == "__main__":
         print(json.dumps(detect(sys.argv[2], sys.argv[3], sys.argv[4:]), indent=1))
     elif cmd == "detect_scratch":
         print(json.dumps(detect_scratch(sys.argv[2], sys.argv[3], sys.argv[4:]), indent=1))
+    elif cmd == "corpus":
+        corpus(sys.argv[2:] or None)
     elif cmd == "keep":
         keep(*sys.argv[2:7])
